@@ -82,6 +82,14 @@ UB == {FileD(<<BmEl(EA, EB)>> \o u) : u \in UNION {Unreach(e) : e \in {EA, Mem(I
       \cup {FileD(<<Text(<<P(EA), S("-"), P(EB)>>), Block(<<Text(<<P(Mem(Id("o"), "p"))>>), Elem("j", <<Attr("data:", "k", EV(Id("s")))>>, <<>>)>>),
                     Elem("o", <<Attr("id", "", EV(EB))>>, <<Elem("i", <<Attr("style", "", EV(EA)), Attr("mark:", "m", EV(Id("l")))>>, <<>>)>>)>>)}
       \cup UA
+      (* an <include> anywhere - at the top, in an element, in a branch, in a list body, in an else branch: the included
+         file's bindings are out of the including file's map wherever the include stands, so nothing is advertised *)
+      \cup { << [path |-> "a", imports |-> <<>>, wxs |-> <<>>, defs |-> <<>>, root |-> <<BmEl(EA, EB)>> \o r], IncB >> :
+                r \in { <<Include("b")>>, <<Elem("w", <<>>, <<Include("b")>>)>>,
+                        <<If(<<[c |-> EV(EB), ch |-> <<Include("b")>>]>>, FALSE, <<>>)>>,
+                        <<If(<<[c |-> EV(Id("s")), ch |-> <<Elem("x", <<>>, <<>>)>>]>>, TRUE, <<Include("b")>>)>>,
+                        <<For(EV(Id("l")), "item", "index", "", <<Include("b")>>)>>,
+                        <<Elem("w", <<>>, <<If(<<[c |-> SV("yes"), ch |-> <<Block(<<Include("b")>>)>>]>>, FALSE, <<>>)>>)>> } }
 
 (* fields named like members of Object.prototype, used where the map cannot reach: a map that is a plain object
    "has" them although it does not own them, and the runtime asks with `map[field]` *)
